@@ -48,8 +48,10 @@ Init == \/ /\ a \in 0..MaxA /\ shape \in Shapes
            /\ b \in {a - 1, a, a + 1} /\ body \in {2, 3} /\ tail = 1
 Next == UNCHANGED <<a, b, shape, body, tail>>
 
-Case == LET x == Text r == ParseText(x) IN
+\* (bound variables force one evaluation of the text and of its parse; LET definitions are re-evaluated at each use)
+CaseOf(x, r) ==
   [t |-> x, ok |-> r.ok, why |-> r.why, at |-> r.i - 1,
    scope |-> FaultScope(x, r.why), v |-> r.v]
-Emit == CSVWrite("%1$s", <<ToJson(Case)>>, IOEnv.OUT)
+Case == CaseOf(Text, ParseText(Text))
+Emit == \A x \in {Text} : \A r \in {ParseText(x)} : CSVWrite("%1$s", <<ToJson(CaseOf(x, r))>>, IOEnv.OUT)
 =============================================================================
